@@ -24,6 +24,7 @@ VERIF = os.path.dirname(os.path.dirname(os.path.abspath(__file__)))
 REPO = os.environ.get('VERIF_REPO', '/repo')
 NPROC = int(os.environ.get('VERIF_JOBS', '16'))
 MAX_STORED_PER_SIG = 3
+MAX_CONFIRM = 8   # at most this many distinct signatures are re-executed in fresh subprocesses per run
 
 
 def h64(obj):
@@ -287,6 +288,7 @@ def main(check_cls):
     known = {(k['property'], k['signature']): k for k in load_known() if k.get('status') == 'known'}
     os.makedirs(os.path.join(VERIF, 'replays'), exist_ok=True)
     new_violations = 0
+    confirmed = 0
     known_seen = []
     lines = []
     harness_error = False
@@ -303,7 +305,8 @@ def main(check_cls):
         with open(path, 'w') as f:
             json.dump({'property': check.pid, 'signature': sig, 'count': v['count'], 'case': case,
                        'detail': detail, 'tier': args.tier}, f, indent=1, default=repr)
-        if sig != 'module-level-state-changed-during-exploration':
+        confirmed += 1
+        if sig != 'module-level-state-changed-during-exploration' and confirmed <= MAX_CONFIRM:
             conf = _confirm(check, path)
             if conf[0] != conf[1]:
                 print(f'HARNESS-ERROR: replay of {path} is not deterministic: {conf}')
